@@ -199,8 +199,8 @@ def install(sch):
         elif k:
             setattr(cfg, n, _FnProxy(obj, k, n))
             wrapped.append(n)
-    if not wrapped:
-        raise MachineryError("recorder out of date: no primitive attribute found on %s" % type(cfg).__name__)
+    # (the recorders feed Layer B only: a construction that reaches its primitives or its randomness another way is not a
+    # reason to stop; unexplained leaves then show up as DRIFT)
     mod = sys.modules[type(sch).__module__]
     seen = False
     if hasattr(mod, "os"):
@@ -221,8 +221,6 @@ def install(sch):
                 return out
             ur._c04 = True
             mod.urandom = ur
-    if not seen:
-        raise MachineryError("recorder out of date: %s has neither os nor urandom" % mod.__name__)
     return wrapped
 
 
@@ -238,14 +236,14 @@ def _slots(obj):
     return [n for n in dict.fromkeys(names) if n != "config"]
 
 
-def _walk(x, tab, role, out):
+def _walk(x, tab, role, out, depth=0):
     if isinstance(x, dict):
         for k, v in x.items():
-            _walk(k, tab, "k", out)
-            _walk(v, tab, "v", out)
+            _walk(k, tab, "k", out, depth + 1)
+            _walk(v, tab, "v", out, depth + 1)
     elif isinstance(x, (list, tuple, set, frozenset)):
         for y in x:
-            _walk(y, tab, role, out)
+            _walk(y, tab, role, out, depth + 1)
     else:
         out.append((tab, role, x))
 
@@ -262,15 +260,28 @@ def walk_obj(obj, tab=None):
     return out
 
 
+def scalar_attrs(obj):
+    """attributes of an index object that hold ONE value (a header, a constant, a counter): not index entries"""
+    out = set()
+    for n in _slots(obj):
+        try:
+            v = getattr(obj, n)
+        except AttributeError:
+            continue
+        if not isinstance(v, (dict, list, tuple, set, frozenset)):
+            out.add(n)
+    return out
+
+
 def enc_len(m):
     return 16 + 16 * (m // 16 + 1)
 
 
-def ct_items(scheme, leaves, ctlen):
+def ct_items(scheme, leaves, ctlen, scalars=()):
     """ciphertext-bearing items: every bytes value / element long enough to be a ciphertext, in the containers that hold
     ciphertexts; blocks that concatenate ciphertexts are cut at the ciphertext length."""
     items = []
-    skip = NOT_CT.get(scheme, set())
+    skip = set(NOT_CT.get(scheme, set())) | set(scalars)
     for tab, role, x in leaves:
         if role != "v" or tab in skip or not isinstance(x, (bytes, bytearray)) or len(x) < MIN_ITEM:
             continue
@@ -506,8 +517,8 @@ def run_case(job):
     ctlen = model_ctlen(scheme, sch, idsz)
     rec["ctlen"] = ctlen
     leaves = [walk_obj(e) for e in edbs]
-    rec["ct1"] = [b2s(x) for x in ct_items(scheme, leaves[0], ctlen)]
-    rec["ct2"] = [b2s(x) for x in ct_items(scheme, leaves[1], ctlen)]
+    rec["ct1"] = [b2s(x) for x in ct_items(scheme, leaves[0], ctlen, scalar_attrs(edbs[0]))]
+    rec["ct2"] = [b2s(x) for x in ct_items(scheme, leaves[1], ctlen, scalar_attrs(edbs[1]))]
     # (i) origin classes, Layer B
     org = Origins(calls + tcalls, key_parts, kws + ids + [w for c_, w, _s in tsers if c_ != "present"])
     cnt = {}
